@@ -200,7 +200,8 @@ class C15(Prop):
         "convertDegen2X_spec", "generated_degen_ok", "convertDegen2X_text", "symConvert_spec", "symConvert_rejects", "setDefaultWeights_resets",
         "reasonableRF_shape_partial",
         "sq_text_digital_text", "sq_digitize_rejects", "sq_digital_text_digital", "sq_revcomp_spec", "sq_revcomp_twice", "textCompl_involutive",
-        "sq_revcomp_text_status", "sq_convertDegen2X_spec")]
+        "sq_revcomp_text_status", "sq_convertDegen2X_spec",
+        "columnSubset_msa_ss_pairs", "minimGaps_digital_nucleic", "addGS_spec", "appendGR_spec", "appendGC_new")]
     claimed = True
     technique = ("Lean 4 proof about an executable hand model of esl_msa.c / esl_wuss.c (in-place compaction loop = filter-by-mask on every aligned field, well-formedness invariants, "
                  "tag-table rebuild of SequenceSubset, mode-conversion and reverse-complement identities over alphabet tables regenerated from the tree, 27-stack WUSS reader = 27 Dyck recognisers, "
@@ -429,13 +430,19 @@ class C15(Prop):
         return {"name": "msa%d" % idx, "ops": ops, "sticky": sticky}
 
     # ------------------------------------------------------------------ esl_msa_Compare / Checksum / Hash / symbol conversions
-    def tweak(self, rng, mode, nseq, alen, rows, digital):
+    def tweak(self, rng, mode, nseq, alen, rows, digital, ops=()):
         """one small edit of alignment A (ops), chosen to land on each side of every comparison esl_msa_Compare makes"""
         i = rng.randrange(nseq)
         r = rng.random()
         def rs(n=None, alpha=string.ascii_letters + string.digits):
             return "".join(rng.choice(alpha) for _ in range(n if n is not None else rng.randrange(1, 8)))
-        if r < 0.10: return ["sq i=%d name=%s" % (i, hx(rs()))]
+        if r < 0.10:
+            cur = [o for o in ops if o.startswith("sq i=%d " % i) and " name=" in o]
+            if cur and rng.random() < 0.6:      # a name that differs from the current one only at its end / by one appended character
+                old = bytes.fromhex(cur[-1].split(" name=")[1].split()[0]).decode("latin-1")
+                new = rng.choice([old + rs(1), old[:-1] + rs(1), old[:-1] or "q", old.swapcase()])
+                return ["sq i=%d name=%s" % (i, hx(new or "q"))]
+            return ["sq i=%d name=%s" % (i, hx(rs()))]
         if r < 0.30:
             base = rng.choice([1.0, 0.5, 2.0, 0.0, 1e-4, 0.002, -1.0, 3.25])
             eps = rng.choice([0.0, 1e-4, 5e-4, 9.9e-4, 1.01e-3, 2e-3, 1e-2, -9.9e-4, -1.01e-3])
@@ -475,7 +482,7 @@ class C15(Prop):
         for _ in range(rng.randrange(1, 5)):
             r = rng.random()
             if r < 0.7:
-                t = self.tweak(rng, mode, nseq, alen, rows, digital)
+                t = self.tweak(rng, mode, nseq, alen, rows, digital, ops)
                 if not t: continue
                 ops += t + ["dump", "compare", "cmpmand", "cmpopt", "checksum"]
                 if rng.random() < 0.3: ops += ["swap", "dump", "dump w=b", "compare"]      # the comparison in the other direction
